@@ -255,7 +255,7 @@ def run(ctx):
         ctx.count("outputs_rechecked_exactly_in_index_space")
     ctx.assumptions += ["de Bruijn's theorem (the dual of a generic multigrid is a planar rhombus tiling) is not proved: planarity, injectivity, connectivity and Euler's "
                         "formula are decided on the output with tolerance-guarded float predicates",
-                        "distinct index classes give distinct points (linear independence of roots of unity modulo the cyclotomic relations) is number theory, trusted",
+                        "distinct index classes give distinct points: proved for 3, 5, 7, 9 bundles (prime_position_injective, nine_position_injective) in exact arithmetic; that float positions of distinct exact points differ is monitored",
                         "offsets for which three grid lines meet in a point (always the case for random_offsets(3)) are non-generic: detected independently and excluded"]
 
 
